@@ -62,7 +62,14 @@ def reentrant(value):
         ZConfig.loadConfigFile(_INNER["schema"], io.StringIO("%define zd 8\nk nope\n<s a>\n"))
     except ZConfig.ConfigurationError:
         pass
+    if HOOK is not None:
+        HOOK(value)
     return value
+
+
+# set by a check for the duration of one load: called from inside zcv.dt.reentrant, i.e. while
+# that load is suspended in a conversion (the hook records what it sees; it never raises)
+HOOK = None
 
 
 def nested(value):
